@@ -186,7 +186,12 @@ func (w *c15World) line(c *Ctx, in string) {
 		_, err := w.conn.Read(make([]byte, 1))
 		closed := err != nil && !strings.Contains(err.Error(), "timeout")
 		c.Emit("%s => closed=%v clients=%d", in, closed, len(w.a.SocksCli))
-	case "clientclose":
+	case "clientclose": // clientclose [rst]: the client goes away - an orderly close, or a reset (killed client, middlebox)
+		if len(parts) > 1 && parts[1] == "rst" {
+			if tc, ok := w.conn.(*net.TCPConn); ok {
+				tc.SetLinger(0)
+			}
+		}
 		w.conn.Close()
 		time.Sleep(ms(30))
 		cl := 0
@@ -404,7 +409,12 @@ func runC15(c *Ctx) {
 			if r.Bool() {
 				w.line(c, "agentclose")
 			} else {
-				w.line(c, "clientclose")
+				if r.Chance(1, 3) {
+					w.line(c, "clientclose rst")
+					c.Count("clientclose.rst")
+				} else {
+					w.line(c, "clientclose")
+				}
 			}
 		}
 	}
